@@ -151,6 +151,9 @@ class Slave(logging_utils.LoggableMixin):
 
         self._save_lock: asyncio.Lock = asyncio.Lock()
 
+        # Prevents a provisioning & update procedure from starting while a previous one is still pushing pending data
+        self._provisioning_lock: asyncio.Lock = asyncio.Lock()
+
     def __str__(self) -> str:
         if self._name:
             return f'slave {self._name} at {self.get_url()}'
@@ -1447,9 +1450,12 @@ class Slave(logging_utils.LoggableMixin):
         self.debug('starting provisioning & update procedure')
         self._provisioning_timeout_task = None
 
-        await self.apply_provisioning()
-        await self.fetch_and_update_device()
-        await self.fetch_and_update_ports()
+        # The events that the device generates while being provisioned schedule this procedure again; a run that starts while
+        # another one is still pushing would push the data that is still marked as pending a second time
+        async with self._provisioning_lock:
+            await self.apply_provisioning()
+            await self.fetch_and_update_device()
+            await self.fetch_and_update_ports()
 
     async def intercept_request(
         self,
